@@ -73,6 +73,12 @@ let check_line (line : string) : unit =
           let got = List.sort compare (if get "setup" = "-" then [] else List.map int_of_string (split_on ',' (get "setup"))) in
           if got <> List.sort compare (List.map int_of_n (t_leaves t)) then oracle "setup_reaches_every_leaf"
         end;
+        (* set up again, for another world: every leaf once more *)
+        if get "setup2" <> "" && get "setup2" <> ids (t_leaves t) then begin
+          disagree "setup" (ids (t_leaves t)) (get "setup2");
+          let got = List.sort compare (if get "setup2" = "-" then [] else List.map int_of_string (split_on ',' (get "setup2"))) in
+          if got <> List.sort compare (List.map int_of_n (t_leaves t)) then oracle "setup_reaches_every_leaf"
+        end;
         let (tr, bp) = parse_trace (get "T") in
         if bp || get "ok" <> "1" then oracle "unexpected_panic";
         if not (tree_accept t tr) then disagree "accept" "in-trace-set" "not-accepted";
